@@ -545,7 +545,13 @@ impl NameResolution {
             ..
         } = func;
         let mut env = ResolveLocalEnv::new();
-        for param in params {
+        for (idx, param) in params.iter().enumerate() {
+            if params[..idx].iter().any(|prev| prev.0.0 == param.0.0) {
+                self.error(format!(
+                    "parameter {} is declared more than once in function {}",
+                    param.0.0, resolved_name
+                ));
+            }
             env.add(&param.0, self.fresh_name(&param.0.0, hir_table));
         }
         let tparams = type_param_set(generics);
